@@ -444,7 +444,9 @@ func evalC12(b *Bundle, r *Runner) []*Violation {
 	{
 		c0 := cases[0]
 		op := c0.Clients[0].Ops[0]
-		c0.Clients = []casefmt.Client{{Name: "client0", Ops: []casefmt.Op{op, op}}}
+		first := op
+		first.ExecTwice = true // and the first Query is executed twice: rows already returned must not change
+		c0.Clients = []casefmt.Client{{Name: "client0", Ops: []casefmt.Op{first, op}}}
 		cases[0] = c0
 	}
 	var firstOp *casefmt.OpObs
@@ -473,6 +475,18 @@ func evalC12(b *Bundle, r *Runner) []*Violation {
 				if !same {
 					return []*Violation{mkViolation(b, "RESULT_NONDETERMINISTIC", "repeat_in_process shape:"+exp.Shape, fmt.Sprintf("%s\n first evaluation : %s %s%s %s\n second evaluation in the same process: %s %s%s %s", exp.Query,
 						opOutcome(op), op.NewErr, op.ExecErr, compact(op.Rows), opOutcome(again), again.NewErr, again.ExecErr, compact(again.Rows)), o)}
+				}
+				if op.Exec2 != "" && opOutcome(op) == "ok" {
+					same2 := op.Exec2 == "ok" && string(op.Rows2) == string(op.Rows)
+					if !same2 && op.Exec2 == "ok" && !exp.SeqFixed {
+						x, ok1 := asArray(normJSON(op.Rows))
+						y, ok2 := asArray(normJSON(op.Rows2))
+						same2 = ok1 && ok2 && multisetEqual(x, y)
+					}
+					if !same2 {
+						return []*Violation{mkViolation(b, "RESULT_NONDETERMINISTIC", "second_exec shape:"+exp.Shape, fmt.Sprintf("%s\n first Exec : %s\n second Exec of the same Query: %s %s", exp.Query, compact(op.Rows), op.Exec2, compact(op.Rows2)), o)}
+					}
+					r.Stats.probe("second_exec_compared")
 				}
 				r.Stats.probe("repeated_in_one_process")
 			}
